@@ -132,6 +132,14 @@ func runC18(c *h.Ctx) {
 				cc.doc = doc
 			}
 		}
+		// a third of the conforming cases also switch on write options (absent fields get filled): these are judged by the
+		// join alone (C16 holds the absolute table)
+		wopts := false
+		if !negative && cs.R.Chance(33) {
+			x := 1 + cs.R.Intn(7)
+			cc.opts.WriteRequireField, cc.opts.WriteDefaultField, cc.opts.WriteOptionalField = x&1 != 0, x&2 != 0, x&4 != 0
+			wopts = true
+		}
 		cs.Info("idl", cc.idl)
 		cs.Info("doc", cc.doc)
 		cs.Info("opts", fmt.Sprintf("%+v", cc.opts))
@@ -146,6 +154,11 @@ func runC18(c *h.Ctx) {
 			if len(out) > 600 {
 				res = "ok:sha:" + h.Sha(out)
 			}
+		}
+		if wopts {
+			cs.Res("j2t-write-options", res)
+			cs.Cover("j2t_join_cases_with_write_options")
+			return
 		}
 		kind := "j2t"
 		if negative {
